@@ -37,7 +37,7 @@ def B(prop, name, edits):
 M("C12", "cuckoo-union-drop-table-restore", (CF, "                    self.table = table_backup;\n", ""), "R12-restore", "union:table")
 M("C12", "cuckoo-union-drop-len-restore", (CF, "                    self.n_elements = n_elements_backup;\n                    return Err(err);", "                    return Err(err);"), "R12-restore", "union:n_elements")
 M("C12", "cuckoo-union-revert-to-log-only", (CF, "                    self.table = table_backup;\n", "                    self.restore_state(&log);\n"), "R12-restore", "union:table")
-M("C12", "cuckoo-insert-no-restore", (CF, "        if result.is_err() {\n            self.restore_state(&log);\n        }\n", ""), "R12-restore", "insert:table")
+M("C12", "cuckoo-insert-conditional-restore", (CF, "        if result.is_err() {\n            self.restore_state(&log);\n        }\n", "        if result.is_err() && log.len() > 1 {\n            self.restore_state(&log);\n        }\n"), "R12-restore", "insert:table")
 M("C12", "cuckoo-log-after-set", (CF, "            log.push((x, tmp));\n            self.table.set(x as u64, f);\n", "            self.table.set(x as u64, f);\n            log.push((x, tmp));\n"), "R12-restore", "insert:table")
 M("C12", "cuckoo-forward-replay", (CF, "for (pos, data) in log.iter().rev().cloned() {", "for (pos, data) in log.iter().cloned() {"), "R12-replay-helper", "restore_state")
 M("C12", "quotient-union-second-site-misses-shifted", (QF, "                        self.is_continuation = is_continuation_backup;\n                        self.is_shifted = is_shifted_backup;\n                        self.remainders = remainders_backup;\n                        self.n_elements = n_elements_backup;\n                        return Err(err);\n                    }\n\n                    self.incr(&mut j)", "                        self.is_continuation = is_continuation_backup;\n                        self.remainders = remainders_backup;\n                        self.n_elements = n_elements_backup;\n                        return Err(err);\n                    }\n\n                    self.incr(&mut j)"), "R12-restore", "union:is_shifted")
@@ -55,7 +55,7 @@ M("C14", "second-bucket-ok-false", (CF, "        if self.write_to_bucket(i2, f) 
 M("C14", "kick-success-no-count", (CF, "            if self.write_to_bucket(i, f) {\n                self.n_elements += 1;\n                return Ok(true);", "            if self.write_to_bucket(i, f) {\n                return Ok(true);"), "R14-accounting", "insert_internal:Ok")
 M("C14", "double-count-in-helper", (CF, "                self.table.set(x as u64, f);\n                return true;", "                self.table.set(x as u64, f);\n                self.n_elements += 1;\n                return true;"), "R14-accounting", "")
 M("C14", "delete-second-bucket-no-decrement", (CF, "        if self.remove_from_bucket(i2, f) {\n            self.n_elements -= 1;\n            return true;", "        if self.remove_from_bucket(i2, f) {\n            return true;"), "R14-accounting", "delete")
-M("C14", "remove-all-copies", (CF, "                self.table.set(x as u64, 0);\n                return true;\n            }\n        }\n        false", "                self.table.set(x as u64, 0);\n                found = true;\n            }\n        }\n        found"), "R14-one-slot", "remove_from_bucket")
+M("C14", "remove-all-copies", (CF, "        let offset = i * self.bucketsize;\n        for x in offset..(offset + self.bucketsize) {\n            if self.table.get(x as u64) == f {\n                self.table.set(x as u64, 0);\n                return true;\n            }\n        }\n        false", "        let offset = i * self.bucketsize;\n        let mut found = false;\n        for x in offset..(offset + self.bucketsize) {\n            if self.table.get(x as u64) == f {\n                self.table.set(x as u64, 0);\n                found = true;\n            }\n        }\n        found"), "R14-one-slot", "remove_from_bucket")
 M("C14", "has-in-bucket-short-range", (CF, "    fn has_in_bucket(&self, i: usize, f: u64) -> bool {\n        let offset = i * self.bucketsize;\n        for x in offset..(offset + self.bucketsize) {", "    fn has_in_bucket(&self, i: usize, f: u64) -> bool {\n        let offset = i * self.bucketsize;\n        for x in offset..(offset + self.bucketsize - 1) {"), "R14-siblings", "has_in_bucket")
 M("C14", "query-only-first-bucket", (CF, "        if self.has_in_bucket(i1, f) {\n            return true;\n        }\n        if self.has_in_bucket(i2, f) {\n            return true;\n        }\n        false", "        let _ = i2;\n        if self.has_in_bucket(i1, f) {\n            return true;\n        }\n        false"), "R14-query", "query")
 M("C14", "delete-probes-i1-twice", (CF, "        if self.remove_from_bucket(i2, f) {\n            self.n_elements -= 1;", "        let _ = i2;\n        if self.remove_from_bucket(i1, f) {\n            self.n_elements -= 1;"), "R14-delete-buckets", "delete")
@@ -164,9 +164,13 @@ B("C03", "count-bind-threshold", (HLL, "        if h <= (self.threshold() as f64
 M("C05", "accept-range-exclusive", (RS, "            let j: usize = self.rng.gen_range(0..=self.i);", "            let j: usize = self.rng.gen_range(0..self.i);"), "R05-accept-range", "add")
 M("C05", "accept-le", (RS, "            if j < self.k {\n                self.reservoir[j] = obj;", "            if j <= self.k && j < self.reservoir.len() {\n                self.reservoir[j] = obj;"), "R05-accept-range", "add")
 M("C05", "gap-p-without-plus-one", (RS, "            let p = (self.k as f64) / ((self.i + 1) as f64);", "            let p = (self.k as f64) / (self.i as f64);"), "R05-gap-term", "gap-draw")
-M("C05", "gap-u-half-open-wrong-side", (RS, "            let u = 1f64 - self.rng.gen_range((0.)..1.); // (0.0, 1.0]", "            let u = self.rng.gen_range((0.)..1.) + 0.0; // [0.0, 1.0)"), "R05-gap-term", "gap-draw")
+M("C05", "gap-u-half-open-wrong-side", (RS, "            let u = 1f64 - self.rng.gen_range((0.)..1.); // (0.0, 1.0]", "            let u: f64 = self.rng.gen_range((0.)..1.); // [0.0, 1.0)"), "R05-gap-term", "gap-draw")
 M("C05", "gap-offset-two", (RS, "            self.skip_until = self.i + g;", "            self.skip_until = self.i + 2 + g;"), "R05-gap-term", "skip_until=i+2+g")
 M("C05", "phase-threshold-swapped", (RS, "        } else if self.i < t {", "        } else if self.i > t {"), "R05-phases", "add")
+M("C05", "gap-u-inclusive-range", (RS, "            let u = 1f64 - self.rng.gen_range((0.)..1.); // (0.0, 1.0]", "            let u = 1f64 - self.rng.gen_range((0.)..=1.); // [0.0, 1.0]"), "R05-gap-term", "gap-draw")
+M("C18", "gap-u-inclusive-range-overflow", (RS, "            let u = 1f64 - self.rng.gen_range((0.)..1.); // (0.0, 1.0]", "            let u = 1f64 - self.rng.gen_range((0.)..=1.); // [0.0, 1.0]"), "R18-no-panic", "gen_range")
+M("C03", "threshold-extra-zero", (DATA, "    6500,", "    65000,"), "R03-threshold-window", "THRESHOLD_DATA_VEC")
+M("C10", "occupied-counter-jumps", (CH, "                *n += 1;\n", "                *n = (*n + 1).max(count);\n"), "R10-paired", "add")
 B("C05", "accept-range-plus-one", (RS, "            let j: usize = self.rng.gen_range(0..=self.i);", "            let n = self.i + 1;\n            let j: usize = self.rng.gen_range(0..n);"))
 
 # ======================================================================================= C07
